@@ -87,7 +87,8 @@ Record env := mkEnv {
   files0 : list file;        (* content of output_directory *)
   last0 : option nat;        (* content of last_finished_iteration, if the file exists *)
   saved_depth : nat;         (* depth of the stack pickled in pickle/nifty_random_state *)
-  stale : bool               (* module global _output_directory is not None (left by an earlier call) *)
+  stale : bool;              (* module global _output_directory is not None (left by an earlier call) *)
+  stale_all : bool           (* module global _save_strategy == "all" (left by an earlier call) *)
 }.
 
 Inductive error := EValue | EAssert | EUnbound | ENotFound | EOther.
@@ -116,6 +117,10 @@ Definition fn (o : opts) (i : nat) : fname := if save_all o then Iter i else Lat
 (* is the module global _output_directory set during this call? *)
 Definition glob_set (v : variant) (o : opts) (e : env) : bool :=
   if fix_global v then outdir o else outdir o || stale e.
+
+(* file name through the module global _save_strategy *)
+Definition gfn (o : opts) (e : env) (i : nat) : fname :=
+  if outdir o then fn o i else if stale_all e then Iter i else Latest.
 
 (* write a file through the module global: into the current directory if this call has one,
    otherwise (orig only) into the stale one *)
@@ -148,59 +153,69 @@ Definition save_sl (f : fname) (s : lstate) : lstate :=
   let s1 := write_samples f (sl_n s) (unlink (FSample f (sl_n s)) s) in
   if sl_res s then write (FMean f) s1 else s1.
 
-(* one pass through the body of `for iglobal in range(initial_index, total_iterations):`
-   result: new state and whether the loop was left by `break` *)
+(* ---- one pass through the body of `for iglobal in range(initial_index, total_iterations):` ---- *)
+
+(* push_sseq(sseqs[iglobal]);  t = transitions(iglobal); mean = mean if t is None else t(sl) *)
+Definition enter (o : opts) (i : nat) (s : lstate) : lstate :=
+  let s := push i s in if trans o i then act (ATransition i) s else s.
+
+(* if n_samples(iglobal) == 0: e = EnergyAdapter(...); e, _ = minimizer(e); sl = SampleList([mean])
+   else: e = SampledKLEnergy(...); e, _ = minimizer(e); sl = e.samples.at(mean)     [2 n mirrored samples] *)
+Definition minimise (o : opts) (i : nat) (s : lstate) : lstate :=
+  let s := act (AMinimise i (nsamp o i)) s in
+  if nsamp o i =? 0 then set_sl 1 false s else set_sl (2 * nsamp o i) true s.
+
+(* if output_directory is not None:
+       _export_operators(...); sl.save(...); write last_finished_iteration;
+       _pickle_save_values(iglobal, 'energy_history', ...)
+       if plot_energy_history: _plot_energy_history(iglobal, ...)   [second plot only `if index > 0`] *)
+Definition save_block (o : opts) (i : nat) (s : lstate) : lstate :=
+  if outdir o then
+    let s := if export o then write (FExport (fn o i)) s else s in
+    let s := save_sl (fn o i) s in
+    let s := write (FEnergyHist (fn o i)) (write FLast s) in
+    if plot_e o then
+      let s := write (FEnergyPlot (fn o i)) s in
+      if 0 <? i then write (FEnergyChangePlot (fn o i)) s else s
+    else s
+  else s.
+
+(* _minisanity(lh, iglobal, sl, comm, plot_minisanity_history):
+     _report_to_logger_and_file(s, "minisanity.txt", ...)   [file only if _output_directory is not None]
+     if _MPI_master(..) and _output_directory is not None:
+         mh = {...} if iglobal == 0 else _pickle_load_values(iglobal - 1, 'minisanity_history')
+         ...; _pickle_save_values(iglobal, 'minisanity_history', mh)
+         if plot_minisanity_history: _plot_minisanity_history(iglobal, mh)
+   _counting_report(count, iglobal, comm)                    [file only if _output_directory is not None] *)
+Definition report_block (v : variant) (o : opts) (e : env) (i : nat) (s : lstate) : outcome lstate :=
+  if glob_set v o e then
+    let s := gwrite o FMinisanityTxt s in
+    (* (orig only) the content of a stale directory is unknown: assumed present *)
+    let present := if outdir o then has (files s) (FMinisanityHist (fn o (pred i))) else true in
+    if negb (i =? 0) && negb present then Err ENotFound else
+    let s := gwrite o (FMinisanityHist (gfn o e i)) s in
+    let s := if plot_m o then gwrite o (FMinisanityPlot (gfn o e i)) s else s in
+    Ok (gwrite o FCounting s)
+  else Ok s.
+
+(* _handle_inspect_callback(inspect_callback, sl, iglobal)
+   if _handle_terminate_callback(terminate_callback, iglobal, comm): [pop_sseq()]; break
+   lh = None; pop_sseq()                                                                       *)
+Definition callbacks (v : variant) (o : opts) (i : nat) (s : lstate) : lstate * bool :=
+  let s := if inspect_args o =? 0 then s else act (AInspect i (depth s)) s in
+  let s := if term_given o then act (ATerminate i (term o i)) s else s in
+  if term_given o && term o i then (if fix_pop v then pop s else s, true) else (pop s, false).
+
+(* result: new state and whether the loop was left by `break` *)
 Definition iteration (v : variant) (o : opts) (e : env) (i : nat) (s : lstate)
   : outcome (lstate * bool) :=
-  (* push_sseq(sseqs[iglobal]) *)
-  let s := push i s in
-  (* t = transitions(iglobal); mean = mean if t is None else t(sl) *)
-  let s := if trans o i then act (ATransition i) s else s in
   (* if dry_run: logger.info(...); [pop_sseq()]; continue *)
-  if dry o then Ok (if fix_pop v then pop s else s, false) else
-  (* if n_samples(iglobal) == 0: EnergyAdapter ... sl = SampleList([mean])
-     else: SampledKLEnergy(...); sl = e.samples.at(mean)                    [2 n mirrored samples] *)
+  if dry o then Ok (if fix_pop v then pop (enter o i s) else enter o i s, false) else
+  (* without a sampling_iteration_controller samples cannot be drawn *)
   if negb (sic o) && negb (nsamp o i =? 0) then Err EOther else
-  let s := act (AMinimise i (nsamp o i)) s in
-  let s := if nsamp o i =? 0 then set_sl 1 false s else set_sl (2 * nsamp o i) true s in
-  (* if output_directory is not None: _export_operators; sl.save; last_finished_iteration;
-       _pickle_save_values(iglobal, 'energy_history', ...); if plot_energy_history: _plot_energy_history *)
-  let s :=
-    if outdir o then
-      let s := if export o then write (FExport (fn o i)) s else s in
-      let s := save_sl (fn o i) s in
-      let s := write (FEnergyHist (fn o i)) (write FLast s) in
-      if plot_e o then
-        let s := write (FEnergyPlot (fn o i)) s in
-        if 0 <? i then write (FEnergyChangePlot (fn o i)) s else s
-      else s
-    else s in
-  (* _minisanity(lh, iglobal, sl, comm, plot_minisanity_history):
-       _report_to_logger_and_file(s, "minisanity.txt", ...)   [file only if _output_directory is not None]
-       if _MPI_master(..) and _output_directory is not None:
-           mh = {...} if iglobal == 0 else _pickle_load_values(iglobal - 1, 'minisanity_history')
-           ...; _pickle_save_values(iglobal, 'minisanity_history', mh)
-           if plot_minisanity_history: _plot_minisanity_history(iglobal, mh)                     *)
-  let r :=
-    if glob_set v o e then
-      let s := gwrite o FMinisanityTxt s in
-      (* (orig only) the content of a stale directory is unknown: assumed present *)
-      let present := if outdir o then has (files s) (FMinisanityHist (fn o (pred i))) else true in
-      if negb (i =? 0) && negb present then Err ENotFound else
-      let s := gwrite o (FMinisanityHist (fn o i)) s in
-      let s := if plot_m o then gwrite o (FMinisanityPlot (fn o i)) s else s in
-      (* _counting_report: file if _output_directory is not None *)
-      Ok (gwrite o FCounting s)
-    else Ok s in
-  match r with
+  match report_block v o e i (save_block o i (minimise o i (enter o i s))) with
   | Err x => Err x
-  | Ok s =>
-    (* _handle_inspect_callback(inspect_callback, sl, iglobal) *)
-    let s := if inspect_args o =? 0 then s else act (AInspect i (depth s)) s in
-    (* if _handle_terminate_callback(terminate_callback, iglobal, comm): [pop_sseq()]; break *)
-    let s := if term_given o then act (ATerminate i (term o i)) s else s in
-    if term_given o && term o i then Ok (if fix_pop v then pop s else s, true)
-    else (* lh = None; pop_sseq() *) Ok (pop s, false)
+  | Ok s1 => Ok (callbacks v o i s1)
   end.
 
 Fixpoint loop (v : variant) (o : opts) (e : env) (is : list nat) (s : lstate)
@@ -244,11 +259,46 @@ Fixpoint first_false (f : nat -> bool) (n : nat) : option nat :=   (* smallest i
 Fixpoint exists_lt (f : nat -> bool) (n : nat) : bool :=
   match n with O => false | S k => f k || exists_lt f k end.
 
+(* if output_directory is not None: makedirs...;
+      if resume and isfile(lfile):
+          initial_index = last_finished_index + 1; fname = _file_name_by_strategy(last_finished_index)
+          if isfile(fname + ".mean.pickle"): ResidualSampleList.load ...
+          else: sl = SampleList.load(fname); myassert(sl.n_samples == 1)
+          if initial_index == total_iterations: return ...
+          _load_random_state(); energy_history = _pickle_load_values(last_finished_index, 'energy_history')
+      else: check_MPI_synced_random_state(comm(iglobal | initial_index)); _save_random_state()
+   result: state, initial_index, whether the pickled RNG state was loaded, whether the function returns at once *)
+Definition prepare (v : variant) (o : opts) (e : env) : outcome (lstate * nat * bool * bool) :=
+  (* sl = _single_value_sample_list(mean, ...) *)
+  let s0 := mkL (depth0 e) [] (files0 e) [] 1 false in
+  if outdir o then
+    match last0 e with
+    | Some l =>
+      if resume o then
+        let f := fn o l in
+        let n := count_samples (files0 e) f 0 (length (files0 e)) in
+        if has (files0 e) (FMean f) then
+          if S l =? total o then Ok (set_sl n true s0, S l, false, true)
+          else if has (files0 e) FRandomState && has (files0 e) (FEnergyHist f)
+               then Ok (set_depth (saved_depth e) (set_sl n true s0), S l, true, false)
+               else Err ENotFound
+        else if n =? 0 then Err ENotFound
+        else if negb (n =? 1) then Err EAssert
+        else if S l =? total o then Ok (set_sl 1 false s0, S l, false, true)
+        else if has (files0 e) FRandomState && has (files0 e) (FEnergyHist f)
+             then Ok (set_depth (saved_depth e) (set_sl 1 false s0), S l, true, false)
+             else Err ENotFound
+      else if negb (fix_iglobal v) && negb (sanity o) then Err EUnbound
+      else Ok (write FRandomState s0, 0, false, false)
+    | None =>
+      if negb (fix_iglobal v) && negb (sanity o) then Err EUnbound
+      else Ok (write FRandomState s0, 0, false, false)
+    end
+  else Ok (s0, 0, false, false).
+
 Definition run (v : variant) (o : opts) (e : env) : outcome result :=
   (* if output_directory is None and resume: raise ValueError *)
   if negb (outdir o) && resume o then Err EValue else
-  (* sl = _single_value_sample_list(mean, ...) *)
-  let s0 := mkL (depth0 e) [] (files0 e) [] 1 false in
   (* if initial_index >= total_iterations: raise ValueError *)
   if total o =? 0 then Err EValue else
   (* if _number_of_arguments(inspect_callback) not in [1, 2]: raise ValueError *)
@@ -256,36 +306,7 @@ Definition run (v : variant) (o : opts) (e : env) : outcome result :=
   (* if sanity_checks: for iglobal in range(...):
          if sampling_iteration_controller(iglobal) is None: myassert(n_samples(iglobal) == 0) *)
   if sanity o && negb (sic o) && exists_lt (fun i => negb (nsamp o i =? 0)) (total o) then Err EAssert else
-  (* if output_directory is not None: makedirs...;
-        if resume and isfile(lfile): ... else: check_MPI_synced_random_state(comm(iglobal | initial_index)); _save_random_state() *)
-  let pre : outcome (lstate * nat * bool * bool) :=   (* state, initial_index, state loaded, return early *)
-    if outdir o then
-      match last0 e with
-      | Some l =>
-        if resume o then
-          (* fname = _file_name_by_strategy(last_finished_index)
-             if isfile(fname + ".mean.pickle"): ResidualSampleList.load  else: SampleList.load; myassert(sl.n_samples == 1) *)
-          let f := fn o l in
-          let n := count_samples (files0 e) f 0 (length (files0 e)) in
-          if has (files0 e) (FMean f) then
-            if S l =? total o then Ok (set_sl n true s0, S l, false, true)
-            else if has (files0 e) FRandomState && has (files0 e) (FEnergyHist f)
-                 then Ok (set_depth (saved_depth e) (set_sl n true s0), S l, true, false)
-                 else Err ENotFound
-          else if n =? 0 then Err ENotFound
-          else if negb (n =? 1) then Err EAssert
-          else if S l =? total o then Ok (set_sl 1 false s0, S l, false, true)
-          else if has (files0 e) FRandomState && has (files0 e) (FEnergyHist f)
-               then Ok (set_depth (saved_depth e) (set_sl 1 false s0), S l, true, false)
-               else Err ENotFound
-        else if negb (fix_iglobal v) && negb (sanity o) then Err EUnbound
-        else Ok (write FRandomState s0, 0, false, false)
-      | None =>
-        if negb (fix_iglobal v) && negb (sanity o) then Err EUnbound
-        else Ok (write FRandomState s0, 0, false, false)
-      end
-    else Ok (s0, 0, false, false) in
-  match pre with
+  match prepare v o e with
   | Err x => Err x
   | Ok (s, first, loaded, early) =>
     (* if initial_index == total_iterations: return (sl, mean) if return_final_position else sl *)
